@@ -6118,15 +6118,21 @@ genOr(AbSyn absyn)
 {
 	int	i, l1 = gen0State->labelNo++, l2 = gen0State->labelNo++;
 	Foam	t;
+	FoamList topLines;
+	Bool	flag;
 
 	t = gen0Temp(FOAM_Bool);
 	gen0AddStmt(foamNewSet(foamCopy(t), foamNewBool(false)), absyn);
+	/* Operands after the first are evaluated conditionally: imports they
+	 * use must be initialised before the test, as in genIf. */
+	flag = gen0AddImportPlace(&topLines);
 	for (i = 0; i < abArgc(absyn); i += 1)
 		gen0AddStmt(foamNewIf(genFoamBit(abArgv(absyn)[i]),l1),absyn);
 	gen0AddStmt(foamNewGoto(l2), absyn);
 	gen0AddStmt(foamNewLabel(l1), absyn);
 	gen0AddStmt(foamNewSet(foamCopy(t), foamNewBool(true)), absyn);
 	gen0AddStmt(foamNewLabel(l2), absyn);
+	if (flag) gen0ResetImportPlace(topLines);
 	return foamNewCast(FOAM_Word, t);
 }
 
@@ -6135,9 +6141,13 @@ genAnd(AbSyn absyn)
 {
 	int	i, l1 = gen0State->labelNo++, l2 = gen0State->labelNo++;
 	Foam	t;
+	FoamList topLines;
+	Bool	flag;
 
 	t = gen0Temp(FOAM_Bool);
 	gen0AddStmt(foamNewSet(foamCopy(t), foamNewBool(true)), absyn);
+	/* See genOr. */
+	flag = gen0AddImportPlace(&topLines);
 	for (i = 0; i < abArgc(absyn); i += 1) {
 		Foam	test = genFoamBit(abArgv(absyn)[i]);
 		gen0AddStmt(foamNewIf(foamNotThis(test),l1), absyn);
@@ -6146,6 +6156,7 @@ genAnd(AbSyn absyn)
 	gen0AddStmt(foamNewLabel(l1), absyn);
 	gen0AddStmt(foamNewSet(foamCopy(t), foamNewBool(false)), absyn);
 	gen0AddStmt(foamNewLabel(l2), absyn);
+	if (flag) gen0ResetImportPlace(topLines);
 	return foamNewCast(FOAM_Word, t);
 }
 
